@@ -45,6 +45,7 @@ pub fn classes_vec(c: &Classes) -> Vec<(&'static str, u64)> {
         ("cases_with_inner_node_observed", b(c.inner_observed > 0)),
         ("cases_with_no_observer_round", b(c.no_observer_rounds > 0)),
         ("cases_with_invalidation", b(c.invalidated > 0)),
+        ("cases_with_sibling_handler_cut_short_by_disallow", b(c.siblings_cut_short > 0)),
         ("stabilises", c.stabilises as u64),
         ("user_function_runs", c.runs as u64),
         ("actions", c.actions as u64),
